@@ -214,6 +214,10 @@ func watchdog() {
 	}
 }
 
+// preExec, when set (instrumented build), prepares per-case simulator state and
+// returns the function that removes it again.
+var preExec func(c *Case) func()
+
 // execCase runs one case and returns its Result.
 func execCase(t *testing.T, p *Prop, c *Case) *Result {
 	r := &Run{C: c, Faults: map[string]int{}, Probes: map[string]int{}, States: map[uint32]struct{}{}}
@@ -232,6 +236,9 @@ func execCase(t *testing.T, p *Prop, c *Case) *Result {
 				r.Fail("panic", "panic:"+panicKey(msg, st), "panic: %s\n%s", msg, trimStack(st))
 			}
 		}()
+		if preExec != nil {
+			defer preExec(c)()
+		}
 		p.Exec(r)
 	}
 	func() {
